@@ -407,6 +407,8 @@ pub struct ReplayStats {
     pub cycles_answered: usize,
     pub contended_claims: usize,
     pub states_with_transfers: usize,
+    /// `release_panicking` lines whose `result == Cancelled ⇔ tok == 0b01` was checked
+    pub release_panicking_checked: usize,
     /// `transfer_lock` calls whose new owner is the query itself or (vacant entry) is already
     /// transitively transferred to the query: the explicit hypothesis of the Lean theorem
     /// `w4_forest`, not asserted by the Rust code. Expected 0.
@@ -440,6 +442,21 @@ pub fn replay(lines: &[String]) -> Result<ReplayStats, ReplayError> {
                 continue;
             }
             "sync" => {
+                // `sync release_panicking t k <result> tok=<bits|?>`:
+                // waiters are told `Cancelled` iff the releasing handle's token triggers (0b01)
+                if toks[1] == "release_panicking" {
+                    if let Some(tok) = toks.get(5).and_then(|t| t.strip_prefix("tok=")) {
+                        if let Ok(bits) = tok.parse::<u8>() {
+                            st.release_panicking_checked += 1;
+                            if (toks[4] == "Cancelled") != (bits == 0b01) {
+                                return Err(err(
+                                    "model",
+                                    format!("release_panicking reports {} with token bits {bits:#04b}", toks[4]),
+                                ));
+                            }
+                        }
+                    }
+                }
                 if toks.len() >= 6
                     && (toks[1] == "try_claim" || toks[1] == "peek_claim")
                     && toks[5] != "claimed"
